@@ -19,7 +19,7 @@ modelled: the model starts from the dissimilarity matrix (DESIGN §6 C20).
 -/
 import ArtModel.Basic
 
-namespace Art
+namespace Art.VAT
 
 /-- `D[i][j]`; `none` when `(i, j)` is not a position of `D`. -/
 def ent {α : Type} (D : List (List α)) (i j : Nat) : Option α := (D[i]?).bind (·[j]?)
@@ -84,4 +84,4 @@ def vat (D : List (List α)) : List Nat × List (List α) :=
 
 end
 
-end Art
+end Art.VAT
